@@ -46,6 +46,17 @@ GradCR(loss, K, X, W) ==
 \* sampled estimator: samples = (subscript, data value, weight); model value read from the model
 ModelAt(K, sub) == SumSeq([r \in 1..Len(K.w) |-> K.w[r] * Prod([k \in 1..Len(K.U) |-> K.U[k][sub[k] + 1][r]])])
 EstF(loss, K, subs, vals, ws) == SumSeq([s \in 1..Len(subs) |-> ws[s] * F(loss, vals[s], ModelAt(K, subs[s]))])
+\* correction range: the first c samples were drawn as zeros without checking (semi-stratified sampling); their
+\* contribution is corrected by subtracting the term for data value 0 - with the SAME sample weight
+EstFc(loss, K, subs, vals, ws, c) ==
+  SumSeq([s \in 1..Len(subs) |-> ws[s] * (F(loss, vals[s], ModelAt(K, subs[s]))
+                                          - (IF s <= c THEN F(loss, 0, ModelAt(K, subs[s])) ELSE 0))])
+EstGc(loss, K, subs, vals, ws, c) ==
+  [k \in 1..Len(K.U) |-> [i \in 1..Len(K.U[k]) |-> [r \in 1..Len(K.w) |->
+     SumSeq([s \in 1..Len(subs) |->
+        IF subs[s][k] # i - 1 THEN 0
+        ELSE ws[s] * (G(loss, vals[s], ModelAt(K, subs[s])) - (IF s <= c THEN G(loss, 0, ModelAt(K, subs[s])) ELSE 0))
+             * Prod([q \in 1..Len(K.U) |-> IF q = k THEN 1 ELSE K.U[q][subs[s][q] + 1][r]])])]]]
 EstG(loss, K, subs, vals, ws) ==     \* unit model weights
   [k \in 1..Len(K.U) |-> [i \in 1..Len(K.U[k]) |-> [r \in 1..Len(K.w) |->
      SumSeq([s \in 1..Len(subs) |->
@@ -67,8 +78,8 @@ GcpWhy(op, a, res) ==
               ELSE IF res.g # [k \in 1..Len(a.xs) |-> G(a.loss, a.xs[k], a.ms[k])] THEN "gradient-function"
               ELSE "ok"
          [] op = "estimate" ->      \* res.F always; res.G only when the model has unit weights
-              IF res.F # EstF(a.loss, a.K, a.subs, a.vals, a.ws) THEN "estimated-objective"
-              ELSE IF UnitWeights(a.K) /\ res.G # EstG(a.loss, a.K, a.subs, a.vals, a.ws) THEN "estimated-gradient"
+              IF res.F # EstFc(a.loss, a.K, a.subs, a.vals, a.ws, a.crng) THEN "estimated-objective"
+              ELSE IF UnitWeights(a.K) /\ res.G # EstGc(a.loss, a.K, a.subs, a.vals, a.ws, a.crng) THEN "estimated-gradient"
               ELSE "ok"
 
 Evaluate(op, a, res) == GcpWhy(op, a, res) = "ok" /\ last' = op
